@@ -26,6 +26,22 @@ Theorem C17_isolation_store : forall st l q q', addressed l = Some q -> q <> q' 
 Proof. exact store_isolation_step. Qed.
 Print Assumptions C17_isolation_store.
 
+(* trace level (covers persist, ticks, kills and recovery at any point): deleting from ANY label sequence every API
+   call addressed to q changes nothing of what the store holds for q' at the end - engine entries (what recover(q')
+   reads), the three pending maps and the batch in flight.  Badger; on the buntdb wrapper a Del of an absent key of q
+   makes the whole batch fail (persist panics), so there the statement is false: C17_isolation_trace_bunt_refuted *)
+Theorem C17_isolation_store_trace : forall p c ls q q', q <> q' -> nof21_pair q q' = true -> nof21_pair q' q = true ->
+  messages_of (fst (ms_run (ms_init Badger p c) ls)) q' =
+  messages_of (fst (ms_run (ms_init Badger p c) (filter (fun l => negb (addressed_to q l)) ls))) q'.
+Proof. exact store_isolation_trace. Qed.
+Print Assumptions C17_isolation_store_trace.
+
+Theorem C17_isolation_trace_bunt_refuted : exists ls q q', q <> q' /\ nof21_pair q q' = true /\ nof21_pair q' q = true /\
+  messages_of (fst (ms_run (ms_init Bunt true true) ls)) q' <>
+  messages_of (fst (ms_run (ms_init Bunt true true) (filter (fun l => negb (addressed_to q l)) ls))) q'.
+Proof. exact bunt_trace_isolation_refuted. Qed.
+Print Assumptions C17_isolation_trace_bunt_refuted.
+
 (* the name condition is implied by "no '.' in either name" and is strictly weaker *)
 Theorem C17_dotfree_names_suffice : forall names, forallb dotfree names = true -> nof21 names = true.
 Proof. exact dotfree_nof21. Qed.
